@@ -478,7 +478,8 @@ macro_rules! mul_div_widen {
                 const NBITS: u32 = <$Single>::NBITS;
                 let lhs2 = <$Double>::from(self) << frac_nbits;
                 let rhs2 = <$Double>::from(rhs);
-                let quot2 = lhs2 / rhs2;
+                // wrapping_div: MIN / -1 at the double width (frac_nbits == NBITS) must not panic
+                let quot2 = lhs2.wrapping_div(rhs2);
                 let quot = quot2 as $Single;
                 let overflow = if_signed_unsigned! {
                     $Signedness,
